@@ -390,7 +390,7 @@ PROPS = {
  },
  "C10": {
   "modules": ["OsmoVerif.Props.C10", "OsmoVerif.Props.C10Geom", "OsmoVerif.Props.TieGenTwap"],
-  "min_theorems": 60,
+  "min_theorems": 62,
   "fingerprints": ["Twap.*"],
   "engines": [{"name": "twap", "kind": "app", "n": {"quick": 5000, "thorough": 40000}, "shards": {"quick": 4, "thorough": 16}, "env": NO_EXPORT_IMPORT}],
   "rule": "two kinds of histories, half of the op budget each.  SINGLE-POOL: a fresh balancer (2 or 3 assets; random / unit / power-of-two / extreme balances and weights) or "
@@ -404,7 +404,19 @@ PROPS = {
           "to the key separator); every block moves the price of a random subset of the pools; one block in four repeats its predecessor's timestamp with messages directed at pools "
           "updated in the predecessor (update rejected: record exists for this time) AND at untouched pools on both sides in changed-pool order; pruning passes with cutoffs on / 1 ns "
           "next to record times and per-block limits 5..200, before/after which every ordered pair of every active pool is asked both strategies on intervals inside / at the edge of / "
-          "outside the keep window.  TIME REPRESENTATION (twap_time_test.go): every question is asked with its two instants handed over as UTC, t.In(fixed zone UTC+5 / UTC-8 / +00:20 / "
+          "outside the keep window.  TRANSACTIONS (twap_tx_test.go): in half of the world blocks the price-moving messages are delivered the way a chain does, as transactions that "
+          "run their messages in ONE branched context with its own gas meter, written back iff every message succeeded: committed (one message, two messages, two pools, multi-hop) "
+          "and REVERTED after a pool changed inside the branch (multi-hop whose second hop fails: unattainable min-out on the same / another pool, pool does not exist; a later message "
+          "of a 2-3 message transaction fails: swap min-out, join TokenInMaxs, exit TokenOutMins, on the same or another pool; out of gas in a later message, limit from a dry run), in "
+          "per-pool patterns RS, SR, RR, RRS, RSR, SRS, RSS, R, S randomly merged over 1-3 pools, also in blocks that repeat a timestamp; what a transaction touched is read from the "
+          "pools' bank balances / share supply; every pool with a COMMITTED change is expected in the block's record update whatever the changed-pool store says "
+          "(update:changed-pool-has-no-fresh-record:<block class>[:after-reverted-tx-on-same-pool|:before-reverted-tx-on-same-pool|:reverted-tx-on-other-pool-in-block][:N-changed-pools], "
+          "track:price-moving-message-not-announced[-inside-tx]:*), a pool touched only by reverted transactions is not announced and gets no record "
+          "(track:pool-announced-without-committed-change, track:reverted-tx-changes-announced-pools, store:record-written-for-pool-that-did-not-change), and the interval since such a "
+          "block is asked on every pool with reverted and committed transactions.  MANY POOLS: world histories with (seed + number of the world) odd promote the fillers to modelled "
+          "two-asset pools (ids up to 312: the little-endian order of the changed-pool store differs from the numeric one) and run blocks that change N distinct pools with one small "
+          "swap each, N over one half of 1, 2, 7, 8, 9, 15, 16, 17, 31..33, 63..65, 127..130, 255..258, 300 (the halves alternate: the four shards of a quick run cover all) plus two random "
+          "sizes <= 300; the pools last / first in store order are asked over the blocks that follow.  TIME REPRESENTATION (twap_time_test.go): every question is asked with its two instants handed over as UTC, t.In(fixed zone UTC+5 / UTC-8 / +00:20 / "
           "+14:00 / -12:00 or tz database zone America/Los_Angeles, Asia/Kolkata, Australia/Lord_Howe, Pacific/Kiritimati), time.Unix(sec, nsec) with time.Local set to such a zone (and "
           "the host's), time.Parse(RFC3339Nano) of a string with an offset, time.Now().Add(..) (monotonic reading), start and end in two different zones; the primary question (model, "
           "own-log oracle) draws one of them, and 1-2 variants through the keeper API / client.Querier / the app's gRPC query router are compared with the UTC answer "
